@@ -1,7 +1,7 @@
 #!/venv/bin/python
 """Determinism self-test: the same run indices executed in fresh interpreters under two
-PYTHONHASHSEED values, two worker counts and two batch orders must give identical
-event-log digests.   usage: determinism.py <prop> [n]   exit 0 ok / 2 mismatch"""
+PYTHONHASHSEED values, two worker counts and two batch orders, and again from replay files written
+for them, must give identical event-log digests.   usage: determinism.py <prop> [n]   exit 0 ok / 2 mismatch"""
 import json
 import os
 import subprocess
@@ -10,8 +10,10 @@ import sys
 VERIF = os.path.dirname(os.path.dirname(os.path.abspath(__file__)))
 
 
-def run(prop, n, hashseed, jobs, reverse):
+def run(prop, n, hashseed, jobs, reverse, via_file=False):
     env = dict(os.environ, VERIF_HASHSEED=str(hashseed), VERIF_JOBS=str(jobs))
+    if via_file:
+        env['VERIF_DIGEST_VIA_FILE'] = '1'
     env.pop('PYTHONHASHSEED', None)
     cmd = [sys.executable, os.path.join(VERIF, 'bin', 'check.py'), prop, '--digests', str(n)]
     if reverse:
@@ -35,9 +37,19 @@ def main():
                 bad += 1
                 if bad <= 5:
                     print('MISMATCH %s run %s: %r vs %r' % (scen, i, a[scen][i], b[scen].get(i)))
+    # third leg: a sample of the same runs executed from replay files (JSON round trip of the case, one run per
+    # forked child)
+    m = min(n, 80)
+    c = run(prop, m, 777, 16, False, via_file=True)
+    for scen in c:
+        for i in c[scen]:
+            if a[scen].get(i) != c[scen][i]:
+                bad += 1
+                if bad <= 8:
+                    print('MISMATCH (from file) %s run %s: %r vs %r' % (scen, i, a[scen].get(i), c[scen][i]))
     errs = sum(1 for scen in a for i in a[scen] if str(a[scen][i][0]).startswith('ERR'))
-    print('determinism %s: %d runs x 2 (hashseed 0/12345, jobs 16/5, forward/reverse batches): %d mismatches, %d errored'
-          % (prop, sum(len(a[s]) for s in a), bad, errs))
+    print('determinism %s: %d runs x 2 (hashseed 0/12345, jobs 16/5, forward/reverse batches; %d of them again from replay files): %d mismatches, %d errored'
+          % (prop, sum(len(a[s]) for s in a), sum(len(c[s]) for s in c), bad, errs))
     return 2 if bad else 0
 
 
